@@ -158,6 +158,9 @@ theorem call_cases (C : Crypto) (st : State) (ctx : Ctx) (func : String) (args :
         validateMessage C st ctx.caller chain id src ph = (st', b, evs) ∧ rs = [encBool b]) ∨
     (∃ op, func = "transferOperatorship" ∧ args = [op] ∧ op.length = 32 ∧
         transferOperatorship st ctx op = .ok (st', evs)) ∨
+    (∃ code md op sraw ss, func = "upgradeContract" ∧ args = code :: md :: op :: sraw ∧
+        ctx.caller = ctx.owner ∧ op.length = 32 ∧ sraw.mapM (top decSigners) = some ss ∧
+        upgrade C st ctx.now op ss = .ok (st', evs)) ∨
     st' = st := by
   unfold call at h
   split at h
@@ -178,7 +181,7 @@ theorem call_cases (C : Crypto) (st : State) (ctx : Ctx) (func : String) (args :
       simp only [hm] at h
       cases h
       exact Or.inr (Or.inl ⟨s, p, rfl, rfl, hm⟩)
-  · cases h; exact Or.inr (Or.inr (Or.inr (Or.inr rfl)))
+  · cases h; exact Or.inr (Or.inr (Or.inr (Or.inr (Or.inr rfl))))
   · rename_i chain id src ph
     cases hph : topFixed 32 ph with
     | none => simp [hph] at h
@@ -204,10 +207,33 @@ theorem call_cases (C : Crypto) (st : State) (ctx : Ctx) (func : String) (args :
         simp only [hm] at h
         cases h
         exact Or.inr (Or.inr (Or.inr (Or.inl ⟨op', rfl, rfl, hl, hm⟩)))
+  case h_19 =>
+    rename_i code md op sraw
+    split at h
+    · cases h
+    · rename_i hown
+      cases hop : topFixed 32 op with
+      | none => simp [hop] at h
+      | some op' =>
+        have hl : op.length = 32 ∧ op' = op := by
+          unfold topFixed at hop; split at hop <;> simp_all
+        obtain ⟨hl, rfl⟩ := hl
+        cases hss : sraw.mapM (top decSigners) with
+        | none => simp [hop, hss] at h
+        | some ss =>
+          simp only [hop, hss] at h
+          cases hu : upgrade C st ctx.now op' ss with
+          | error e => simp [hu] at h
+          | ok v =>
+            obtain ⟨a, b⟩ := v
+            simp only [hu] at h
+            cases h
+            refine Or.inr (Or.inr (Or.inr (Or.inr (Or.inl ⟨code, md, op', sraw, ss, rfl, rfl, ?_, hl, hss, hu⟩))))
+            simpa using hown
   all_goals (
     repeat' (first
       | (cases h; done)
-      | (cases h; exact Or.inr (Or.inr (Or.inr (Or.inr rfl))))
+      | (cases h; exact Or.inr (Or.inr (Or.inr (Or.inr (Or.inr rfl)))))
       | split at h))
 
 end Axelar.Gateway
@@ -442,11 +468,49 @@ theorem validateMessage_spec (C : Crypto) (st : State) (caller chain id src ph :
   simp only [validateMessage]
   split <;> simp_all
 
+/-- anything preserved by one raw rotation (no delay enforced) is preserved by the loop of `upgrade` -/
+theorem upgradeLoop_induct (C : Crypto) (now : Nat) (P : State → Prop)
+    (hstep : ∀ st st' ws evs, P st → rotateSignersRaw C st now ws false = .ok (st', evs) → P st')
+    (l : List WeightedSigners) (st : State) (e : List Ev) (st1 : State) (e1 : List Ev) (hp : P st)
+    (hl : upgradeLoop C now st l e = .ok (st1, e1)) : P st1 := by
+  induction l generalizing st e with
+  | nil => simp [upgradeLoop] at hl; obtain ⟨rfl, _⟩ := hl; exact hp
+  | cons w l ih =>
+    unfold upgradeLoop at hl
+    cases hr : rotateSignersRaw C st now w false with
+    | error err => simp [hr] at hl
+    | ok v =>
+      obtain ⟨st2, e2⟩ := v
+      simp only [hr] at hl
+      exact ih st2 _ (hstep st st2 w e2 hp hr) hl
+
+/-- `upgrade`: anything preserved by setting the operator and by a raw rotation is preserved -/
+theorem upgrade_induct (C : Crypto) (now : Nat) (P : State → Prop)
+    (hop : ∀ st op, P st → P { st with operator := op })
+    (hstep : ∀ st st' ws evs, P st → rotateSignersRaw C st now ws false = .ok (st', evs) → P st')
+    (st : State) (op : Bytes) (ss : List WeightedSigners) (st1 : State) (e1 : List Ev) (hp : P st)
+    (hu : upgrade C st now op ss = .ok (st1, e1)) : P st1 := by
+  unfold upgrade at hu
+  by_cases hz : isZeroAddr op = true
+  · simp only [hz, if_true] at hu
+    exact upgradeLoop_induct C now P hstep ss st _ st1 e1 hp hu
+  · simp only [hz, Bool.false_eq_true, if_false] at hu
+    exact upgradeLoop_induct C now P hstep ss _ _ st1 e1 (hop st op hp) hu
+
+theorem upgrade_messages (C : Crypto) (now : Nat) (st : State) (op : Bytes) (ss : List WeightedSigners)
+    (st1 : State) (e1 : List Ev) (hu : upgrade C st now op ss = .ok (st1, e1)) :
+    st1.messages = st.messages :=
+  upgrade_induct C now (fun s => s.messages = st.messages) (fun _ _ h => h)
+    (fun s s' ws evs h hr => by
+      obtain ⟨_, _, _, _, rfl, _⟩ := rotateSignersRaw_spec C s s' now ws false evs hr; exact h)
+    st op ss st1 e1 rfl hu
+
 theorem call_trans (C : Crypto) (st st' : State) (ctx : Ctx) (func : String) (args : List Bytes)
     (rs : List Bytes) (evs : List Ev) (h : call C st ctx func args = .ok (st', rs, evs))
     (k : Bytes × Bytes) : Trans (st.messages k) (st'.messages k) := by
   rcases call_cases C st ctx func args st' rs evs h with
-    ⟨m, p, _, _, ha⟩ | ⟨s, p, _, _, hr⟩ | ⟨chain, id, src, ph, b, _, _, _, hv, _⟩ | ⟨op, _, _, _, ht⟩ | rfl
+    ⟨m, p, _, _, ha⟩ | ⟨s, p, _, _, hr⟩ | ⟨chain, id, src, ph, b, _, _, _, hv, _⟩ | ⟨op, _, _, _, ht⟩ |
+    ⟨_, _, op, _, ss, _, _, _, _, _, hu⟩ | rfl
   · obtain ⟨proof, msgs, b, _, _, _, _, he⟩ := approveMessages_spec C st st' m p evs ha
     have := approveAll_trans C st msgs [] k
     rw [← he] at this
@@ -474,6 +538,7 @@ theorem call_trans (C : Crypto) (st st' : State) (ctx : Ctx) (func : String) (ar
         · cases ht
         · cases ht; exact Or.inl rfl
       · cases ht
+  · rw [upgrade_messages C ctx.now st op ss st' evs hu]; exact Or.inl rfl
   · exact Or.inl rfl
 
 theorem stepCall_trans (C : Crypto) (st : State) (c : Call) (k : Bytes × Bytes) :
